@@ -50,7 +50,8 @@ enum { OPF_MAY_FAIL = 1,      // NULL is an acceptable answer even without an in
        OPF_WATCH = 8,         // free: remember the range; purge_check later demands that it was purged
        OPF_SENTINEL = 16,
        OPF_MUST_SUCCEED = 32,
-       OPF_FULL_FILL = 64 };     // write/verify every byte even of huge blocks  // NULL is a violation even after earlier (healed) faults   // free: a sentinel of a purge activity round
+       OPF_FULL_FILL = 64,
+       OPF_WAIT = 128 };      // allocation: wait until the slot is empty; free: wait until it is filled (bounded producer/consumer queue)     // write/verify every byte even of huge blocks  // NULL is a violation even after earlier (healed) faults   // free: a sentinel of a purge activity round
 
 struct Program { std::vector<Op> ops; bool explicit_done = false; bool reuse_id = false; };
 
